@@ -230,6 +230,10 @@ def emit(pid, tier, seed, level, coverage, violations, wall, assumptions, harnes
     )
     if new:
         return 1
+    if any("harness-error" in str(h) for h in harness_faults):
+        # the check itself is broken for some cases: never report success on top of that
+        print(f"HARNESS-ERROR property={pid}: {sum('harness-error' in str(h) for h in harness_faults)} case(s) could not be analysed")
+        return 3
     return 0
 
 
